@@ -100,6 +100,25 @@ benign("throttle-config-logged", "throttle.NewConfig reads (does not write) the 
 benign("detector-reset-via-pointers", "detector Reset resets its two rings through pointers to the fields (correct form of the loop)",
        (MO, "\td.flooredFrames.Reset()\n\td.diffFrames.Reset()", "\tfor _, loop := range []*FrameLoop{&d.flooredFrames, &d.diffFrames} {\n\t\tloop.Reset()\n\t}", False))
 
+RC = "recorder/recorderconfig.go"
+benign("counter-reset-at-start", "framesWritten is also zeroed when a recording starts (redundant, correct)",
+       (MP, "\tmp.isRecording = true\n\tif mp.listener != nil {\n\t\tmp.listener.RecordingStarted()", "\tmp.isRecording = true\n\tmp.framesWritten = 0\n\tif mp.listener != nil {\n\t\tmp.listener.RecordingStarted()", False))
+
+benign("writer-conn-deadline-cleared", "thermal-writer clears the connection deadline before reading (a non-reading use of conn)",
+       (TW, "\treader := bufio.NewReader(conn)\n\theader, err := headers.ReadHeaderInfo(reader)", "\tconn.SetDeadline(time.Time{})\n\treader := bufio.NewReader(conn)\n\theader, err := headers.ReadHeaderInfo(reader)", False))
+
+benign("recorder-config-locals-renamed", "recorder.NewConfig with renamed locals and the struct filled field by field (correct refactor)",
+       (RC, "thermalRecorderConfig", "trc", True),
+       (RC, "\trecorderConfig := RecorderConfig{\n\t\tMinSecs:          trc.MinSecs,\n\t\tMaxSecs:          trc.MaxSecs,\n\t\tPreviewSecs:      trc.PreviewSecs,\n\t\tWindow:           *w,\n\t\tConstantRecorder: trc.ConstantRecorder,\n\t}\n",
+        "\tvar recorderConfig RecorderConfig\n\trecorderConfig.MinSecs = trc.MinSecs\n\trecorderConfig.MaxSecs = trc.MaxSecs\n\trecorderConfig.PreviewSecs = trc.PreviewSecs\n\trecorderConfig.Window = *w\n\trecorderConfig.ConstantRecorder = trc.ConstantRecorder\n", False))
+
+benign("disk-gate-logs-space", "CheckCanRecord logs when space is low without touching any file (correct)",
+       (CF, "\tenoughSpace, err := checkDiskSpace(cfr.minDiskSpace, cfr.outputDir)\n", "\tenoughSpace, err := checkDiskSpace(cfr.minDiskSpace, cfr.outputDir)\n\tif err == nil && !enoughSpace {\n\t\tlog.Printf(\"less than %d MB free in %s\", cfr.minDiskSpace, cfr.outputDir)\n\t}\n", False))
+
+benign("motion-config-validate-rejects", "motion.NewConfig's validation returns an error for an inconsistent range instead of changing it (correct)",
+       ("motion/motionconfig.go", "func validateConfig(*config.ThermalMotion) error {\n\t// TODO\n", "func validateConfig(conf *config.ThermalMotion) error {\n\tif conf.TempThreshMax != 0 && conf.TempThreshMax < conf.TempThreshMin {\n\t\treturn errors.New(\"temp-thresh-max is below temp-thresh-min\")\n\t}\n", False),
+       ("motion/motionconfig.go", "import (\n", "import (\n\t\"errors\"\n", False))
+
 here = os.path.dirname(os.path.abspath(__file__))
 for f in os.listdir(os.path.join(here, "benign")):
     os.unlink(os.path.join(here, "benign", f))
